@@ -18,6 +18,32 @@ pub fn gen_ct_grammar(rng: &mut Rng, allow_eco: bool) -> AG {
             g.implicit_tokens.clear();
             g.compact();
         }
+        // action code the builder can really generate Rust for: every rule returns u64
+        if matches!(g.kind, AKind::Grmtools | AKind::OriginalUser) {
+            g.parse_param = if rng.chance(1, 3) { Some(("p".to_string(), "u64".to_string())) } else { None };
+            let has_param = g.parse_param.is_some();
+            for r in g.rules.iter_mut() {
+                r.actiontype = Some("u64".to_string());
+                for p in r.prods.iter_mut() {
+                    let n = p.syms.len();
+                    p.action = Some(match rng.below(4) {
+                        0 => "0".to_string(),
+                        1 => "$span.len() as u64".to_string(),
+                        2 if has_param => "p + 1".to_string(),
+                        _ if n > 0 => format!("{{ let _ = &${}; {} }}", rng.range(1, n), n),
+                        _ => "7".to_string(),
+                    });
+                }
+            }
+        } else {
+            g.parse_param = None;
+            for r in g.rules.iter_mut() {
+                r.actiontype = None;
+                for p in r.prods.iter_mut() {
+                    p.action = None;
+                }
+            }
+        }
         for t in g.tokens.iter_mut() {
             if t.name.contains(' ') || t.name.contains('\'') || t.name.contains('"') {
                 t.name = t.name.replace([' ', '\'', '"'], "_");
